@@ -1,5 +1,252 @@
-import StraxModel.Model.Basic
+import StraxModel.Lemmas.Storage
+/-
+  Property C03 — saving then loading returns the same rows, ranges and consistent metadata.
+
+  Model: `Model/Storage.lean` (`saveAll` = `Saver.save_from/save/close` + `FileSaver`, `loadAll` =
+  `StorageBackend.loader/_read_and_format_chunk` + `FileSytemBackend._read_chunk`), on top of the
+  chunk algebra and rechunker of C07.  All theorems hold for every initial `argmin` constant `a0` of
+  `Rechunker.get_splits` (the driver uses `Generated.getSplitsArgmin0`), every metadata header and
+  every run id.
+
+  What the loader cannot restore is explicit: `restore hdr rid c` is `c` with `data_type`,
+  `data_kind`, `target_size_mb` taken from the metadata header and `superrun` reset to the
+  constructor default `{run_id: (start, end)}`; rows, start, end, run id and subruns are untouched
+  (`restore_keeps`).
+
+  Hypotheses (decidable, evaluated by the driver on every correspondence case):
+  * `lawAbidingB s`  — the laws of chunking: adjacent, `start ≤ end`, rows `start ≤ time < endt ≤ end`,
+                        all rows sorted by time;
+  * `runOkB rid c`   — conventions of a stored run: `0 ≤ start`, run id `rid`, subruns that survive
+                        json (`sort_keys`) + the constructor's stable sort, present for a super-run id;
+  * `storableB rid c` — what the plain round trip really needs of ONE chunk (no adjacency, no
+                        sortedness): a valid `strax.Chunk` of run `rid`.
+-/
 namespace Strax.C03
-open Strax
+open Strax Strax.Storage
+
+/-! ### structure of `save_from` (all inputs) -/
+
+/-- Saving with rechunking is: run the rechunker over the whole source, then save its output
+plainly — same metadata, same files, same exception when the rechunker fails.  Holds for every
+input stream, law-abiding or not. -/
+theorem save_rechunk_factors (a0 : Int) (hdr : Header) (s : List Chunk) :
+    saveAll a0 true hdr s =
+      (rechunkAll a0 ⟨true, hdr.runId.startsWith "_", none⟩ s) >>= saveAll a0 false hdr := by
+  rw [saveAll_eq]
+  cases h : rechunkAll a0 ⟨true, hdr.runId.startsWith "_", none⟩ s with
+  | error e => rfl
+  | ok out =>
+    simp only [Except.map, bind, Except.bind]
+    rw [saveAll_eq, rechunkAll_off]
+    rfl
+
+/-- Without faults the saver itself never fails: `save_from` raises iff the rechunker raises. -/
+theorem save_fails_iff_rechunker_fails (a0 : Int) (re : Bool) (hdr : Header) (s : List Chunk) (e : Err) :
+    saveAll a0 re hdr s = .error e ↔ rechunkAll a0 ⟨re, hdr.runId.startsWith "_", none⟩ s = .error e := by
+  rw [saveAll_eq]
+  cases rechunkAll a0 ⟨re, hdr.runId.startsWith "_", none⟩ s <;> simp [Except.map]
+
+/-! ### round trip without rechunking -/
+
+/-- the fields the loader does restore -/
+theorem restore_keeps (hdr : Header) (rid : String) (c : Chunk) :
+    (restore hdr rid c).rows = c.rows ∧ (restore hdr rid c).start = c.start ∧
+    (restore hdr rid c).stop = c.stop ∧ (restore hdr rid c).runId = c.runId ∧
+    (restore hdr rid c).subruns = c.subruns :=
+  restore_fields hdr rid c
+
+/-- Strongest form: ANY non-empty list of valid chunks of run `rid` (adjacent or not, sorted or
+not) written without rechunking is read back chunk by chunk: same number of chunks, same
+boundaries, same rows, same run id and subruns. -/
+theorem roundtrip_plain_storable (a0 : Int) (hdr : Header) (rid : String) (s : List Chunk)
+    (hne : s ≠ []) (hs : s.all (storableB rid) = true) :
+    ∃ md files, saveAll a0 false hdr s = .ok (md, files) ∧
+      loadAll md files = .ok (s.map (restore hdr rid)) := by
+  refine ⟨metaOf hdr s, filesFrom hdr.pfx 0 s, ?_, ?_⟩
+  · rw [saveAll_eq, rechunkAll_off]; rfl
+  · exact loadAll_saved hdr rid s hne (fun c hc => List.all_eq_true.1 hs c hc)
+
+/-- `roundtrip_plain`: a law-abiding stream of run `rid` saved without rechunking loads back as
+itself (modulo `restore`). -/
+theorem roundtrip_plain (a0 : Int) (hdr : Header) (rid : String) (s : List Chunk)
+    (hne : s ≠ []) (hl : lawAbidingB s = true) (hr : s.all (runOkB rid) = true) :
+    ∃ md files, saveAll a0 false hdr s = .ok (md, files) ∧
+      loadAll md files = .ok (s.map (restore hdr rid)) :=
+  roundtrip_plain_storable a0 hdr rid s hne
+    (List.all_eq_true.2 (storable_of_law rid s hl hr))
+
+/-- The empty source is the one law-abiding stream that does NOT round-trip: `save_from` succeeds
+and leaves metadata without chunks, start or end, and the loader refuses it with ValueError
+("it has no chunks"). -/
+theorem roundtrip_empty_source (a0 : Int) (re : Bool) (hdr : Header) :
+    ∃ md files, saveAll a0 re hdr [] = .ok (md, files) ∧ md.chunks = [] ∧ files = [] ∧
+      md.start = none ∧ md.stop = none ∧ md.writingEnded = true ∧
+      loadAll md files = .error Err.valueError := by
+  refine ⟨metaOf hdr [], [], ?_, rfl, rfl, rfl, rfl, rfl, ?_⟩
+  · rw [saveAll_eq]; rfl
+  · rfl
+
+/-! ### round trip with rechunking -/
+
+/-
+  Full statement (DESIGN.md §6 C03):
+
+    theorem roundtrip_rechunk (hne : s ≠ []) (hl : lawAbidingB s) (hr : s.all (runOkB rid))
+        (ht : ∀ c ∈ s, 1 ≤ c.target) :
+      ∃ md files loaded, saveAll a0 true hdr s = .ok (md, files) ∧ loadAll md files = .ok loaded ∧
+        loaded.flatMap (·.rows) = s.flatMap (·.rows) ∧
+        (boundaries loaded).head? = (boundaries s).head? ∧ (boundaries loaded).getLast? = (boundaries s).getLast? ∧
+        lawAbidingB loaded ∧ boundaryRuleB s loaded
+
+  Proved here: everything that belongs to storage.  `roundtrip_rechunk_partial` shows that the
+  loader returns EXACTLY the rechunker's output stream (modulo `restore`), so rows, overall
+  range, lawfulness and the boundary rule of the loaded stream are those of
+  `rechunkAll a0 ⟨true, _, none⟩ s`.  Missing: the C07 stream theorem (`Strax.C07.rechunk_stream`,
+  being proved in Lemmas/ChunkAlg.lean: on a law-abiding stream with targets ≥ 1 the rechunker
+  succeeds, conserves rows and range, its output is law-abiding with valid chunks, and every new
+  boundary lies strictly inside a row-free gap).  Its conclusions are the explicit hypotheses
+  `hre`, `hne`, `hst` below; with it they follow from `lawAbidingB s`.
+-/
+theorem roundtrip_rechunk_partial (a0 : Int) (hdr : Header) (rid : String) (s out : List Chunk)
+    (hre : rechunkAll a0 ⟨true, hdr.runId.startsWith "_", none⟩ s = .ok out)
+    (hne : out ≠ []) (hst : out.all (storableB rid) = true) :
+    ∃ md files loaded, saveAll a0 true hdr s = .ok (md, files) ∧ loadAll md files = .ok loaded ∧
+      loaded = out.map (restore hdr rid) ∧
+      loaded.flatMap (·.rows) = out.flatMap (·.rows) ∧
+      boundaries loaded = boundaries out ∧
+      lawAbidingB loaded = lawAbidingB out ∧
+      boundaryRuleB s loaded = boundaryRuleB s out := by
+  refine ⟨metaOf hdr out, filesFrom hdr.pfx 0 out, out.map (restore hdr rid), ?_, ?_, rfl,
+    flatMap_rows_restore hdr rid out, boundaries_restore hdr rid out, lawAbidingB_restore hdr rid out,
+    boundaryRuleB_restore hdr rid s out⟩
+  · rw [saveAll_eq, hre]; rfl
+  · exact loadAll_saved hdr rid out hne (fun c hc => List.all_eq_true.1 hst c hc)
+
+/-! ### metadata agrees with the files (all inputs, rechunking on or off) -/
+
+/-- Whenever `save_from` returns normally there is a list `out` of chunks actually written (the
+source itself without rechunking, the rechunker's output with it) such that the metadata has
+exactly one entry per written chunk, in order, with `chunk_i` = position, `n` = number of rows,
+`start`/`end`/`run_id`/`subruns` of the chunk, first/last row times of its rows, a file name iff
+the chunk has rows and then that file holds exactly those rows; every file in the directory is
+named by an entry; overall `start`/`end` are those of the first/last written chunk;
+`writing_ended` is set; there is no `exception`; the header is untouched. -/
+theorem meta_consistent (a0 : Int) (re : Bool) (hdr : Header) (s : List Chunk) (md : Meta) (files : Files)
+    (h : saveAll a0 re hdr s = .ok (md, files)) :
+    ∃ out, rechunkAll a0 ⟨re, hdr.runId.startsWith "_", none⟩ s = .ok out ∧ (re = false → out = s) ∧
+      md.chunks.length = out.length ∧
+      (∀ (k : Nat) (c : Chunk), out[k]? = some c → ∃ info : ChunkInfo, md.chunks[k]? = some info ∧
+          info.i = k ∧ info.n = c.rows.length ∧ info.start = c.start ∧ info.stop = c.stop ∧
+          info.runId = c.runId ∧ info.subruns = c.subruns ∧
+          info.firstTime = c.rows.head?.map (·.time) ∧ info.firstEnd = c.rows.head?.map (·.endt) ∧
+          info.lastTime = c.rows.getLast?.map (·.time) ∧ info.lastEnd = c.rows.getLast?.map (·.endt) ∧
+          (c.rows = [] → info.filename = none) ∧
+          (c.rows ≠ [] → ∃ fn, info.filename = some fn ∧ readFile files fn = some c.rows)) ∧
+      (∀ p ∈ files, ∃ info ∈ md.chunks, info.filename = some p.1 ∧ info.n = p.2.length ∧ info.n ≠ 0) ∧
+      md.start = out.head?.map (·.start) ∧ md.stop = out.getLast?.map (·.stop) ∧
+      md.writingEnded = true ∧ md.exception = false ∧ md.hdr = hdr := by
+  rw [saveAll_eq] at h
+  cases hre : rechunkAll a0 ⟨re, hdr.runId.startsWith "_", none⟩ s with
+  | error e => simp [hre, Except.map] at h
+  | ok out =>
+    simp only [hre, Except.map, Except.ok.injEq, Prod.mk.injEq] at h
+    obtain ⟨hmd, hfiles⟩ := h
+    subst hmd hfiles
+    refine ⟨out, rfl, ?_, ?_, ?_, ?_, rfl, rfl, rfl, rfl, rfl⟩
+    · intro hf
+      subst hf
+      rw [rechunkAll_off] at hre
+      exact (Except.ok.inj hre).symm
+    · simp [metaOf, infosFrom_length]
+    · intro k c hk
+      refine ⟨infoFor hdr.pfx k c, ?_, ?_⟩
+      · simp [metaOf, infosFrom_getElem?, hk]
+      · obtain ⟨h1, h2, h3, h4, h5, h6, h7, h8, h9⟩ := infoFor_fields hdr.pfx k c
+        refine ⟨h1, h2, infoFor_start _ _ _, infoFor_stop _ _ _, h3, h4, h5, h6, h7, h8, ?_, ?_⟩
+        · intro he; simp [h9, he]
+        · intro hne
+          refine ⟨chunkFilename hdr.pfx k, by simp [h9, hne], ?_⟩
+          have := readFile_filesFrom hdr.pfx out 0 k c hk hne
+          simpa using this
+    · intro p hp
+      obtain ⟨k, c, hk, hne, hpe⟩ := mem_filesFrom hdr.pfx out 0 p hp
+      refine ⟨infoFor hdr.pfx k c, ?_, ?_⟩
+      · have : (metaOf hdr out).chunks[k]? = some (infoFor hdr.pfx k c) := by
+          simp [metaOf, infosFrom_getElem?, hk]
+        exact List.mem_of_getElem? this
+      · obtain ⟨_, h2, _, _, _, _, _, _, h9⟩ := infoFor_fields hdr.pfx k c
+        subst hpe
+        refine ⟨by simp [h9, hne], by simpa using h2, ?_⟩
+        rw [h2]
+        simpa using hne
+
+/-! ### the rejecting branch the round trip relies on -/
+
+/-- A chunk whose file does not hold exactly `n` rows (`n ≠ 0`) is refused with DataCorrupted,
+never returned. -/
+theorem load_rejects_wrong_n (md : Meta) (files : Files) (info : ChunkInfo) (fn : String) (rows : List Row)
+    (hn : info.n ≠ 0) (hfn : info.filename = some fn) (hf : readFile files fn = some rows)
+    (hlen : rows.length ≠ info.n) :
+    loadChunk md files info = .error Err.dataCorrupted := by
+  unfold loadChunk
+  simp [hn, hfn, hf, hlen, bind, Except.bind, pure, Except.pure, throw, throwThe, MonadExceptOf.throw]
+
+/-- `n == 0` ⇒ no file is opened: the entry loads (as an empty chunk) whatever the directory holds. -/
+theorem load_empty_needs_no_file (md : Meta) (files files' : Files) (info : ChunkInfo) (hn : info.n = 0) :
+    loadChunk md files info = loadChunk md files' info := by
+  unfold loadChunk
+  simp [hn]
+
+/-! ### non-vacuity -/
+
+/-- a law-abiding stream of run "r": an empty zero-duration chunk, two overlapping rows, an empty
+chunk, a row after a long gap -/
+def exStream : List Chunk :=
+  [ { dataType := "d", kind := "k", runId := some "r", start := 0, stop := 0, rows := [],
+      subruns := none, superrun := [⟨"r", 0, 0⟩], target := 2 },
+    { dataType := "d", kind := "k", runId := some "r", start := 0, stop := 10,
+      rows := [⟨1, 6, 0⟩, ⟨4, 9, 1⟩], subruns := none, superrun := [⟨"r", 0, 10⟩], target := 2 },
+    { dataType := "d", kind := "k", runId := some "r", start := 10, stop := 10, rows := [],
+      subruns := none, superrun := [⟨"r", 10, 10⟩], target := 2 },
+    { dataType := "d", kind := "k", runId := some "r", start := 10, stop := 5000,
+      rows := [⟨4000, 4001, 2⟩], subruns := none, superrun := [⟨"r", 10, 5000⟩], target := 2 } ]
+
+example : exStream ≠ [] := by decide
+example : lawAbidingB exStream = true := by decide +kernel
+example : exStream.all (runOkB "r") = true := by decide +kernel
+example : exStream.all (storableB "r") = true := by decide +kernel
+/-- a chunk list that is storable but not law-abiding (gap and overlap between chunks):
+`roundtrip_plain_storable` still applies -/
+example : lawAbidingB (exStream.reverse) = false ∧ exStream.reverse.all (storableB "r") = true := by
+  decide +kernel
+/-- a super-run chunk carrying subruns -/
+def exSuper : Chunk :=
+  { dataType := "d", kind := "k", runId := some "_s", start := 0, stop := 9,
+    rows := [⟨1, 2, 0⟩], subruns := some [⟨"b", 0, 9⟩], superrun := [⟨"_s", 0, 9⟩], target := 1 }
+example : storableB "_s" exSuper = true := by
+  simp [exSuper, storableB, rowsInside, restorableRuns, jsonRuns, sortRuns, runsOverlap]
+/-- … and a zero-length subrun whose id sorts after its neighbour is not restorable -/
+example : restorableRuns (some [⟨"b", 0, 0⟩, ⟨"a", 0, 5⟩]) = false := by
+  simp [restorableRuns, jsonRuns, sortRuns, runsOverlap, List.mergeSort, List.MergeSort.Internal.splitInTwo]
+
+/-- the hypotheses of `roundtrip_rechunk_partial` on a concrete stream: two chunks with a gap of
+3991 ns between their rows, target one row — the rechunker moves the boundary from 10 to 3500,
+strictly inside the row-free gap -/
+def exS : List Chunk :=
+  [ { dataType := "d", kind := "k", runId := some "r", start := 0, stop := 10,
+      rows := [⟨1, 6, 0⟩, ⟨4, 9, 1⟩], subruns := none, superrun := [⟨"r", 0, 10⟩], target := 1 },
+    { dataType := "d", kind := "k", runId := some "r", start := 10, stop := 5000,
+      rows := [⟨4000, 4001, 2⟩], subruns := none, superrun := [⟨"r", 10, 5000⟩], target := 1 } ]
+def exOut : List Chunk :=
+  [ { dataType := "d", kind := "k", runId := some "r", start := 0, stop := 3500,
+      rows := [⟨1, 6, 0⟩, ⟨4, 9, 1⟩], subruns := none, superrun := [⟨"r", 0, 3500⟩], target := 1 },
+    { dataType := "d", kind := "k", runId := some "r", start := 3500, stop := 5000,
+      rows := [⟨4000, 4001, 2⟩], subruns := none, superrun := [⟨"r", 3500, 5000⟩], target := 1 } ]
+example : lawAbidingB exS = true ∧ exS.all (runOkB "r") = true := by decide +kernel
+example : rechunkAll (-1) ⟨true, ("r" : String).startsWith "_", none⟩ exS = .ok exOut :=
+  ok_of_toOption (by decide +kernel)
+example : exOut ≠ [] ∧ exOut.all (storableB "r") = true ∧ lawAbidingB exOut = true ∧
+    boundaryRuleB exS exOut = true ∧ (boundaries exOut).contains 3500 = true ∧
+    (boundaries exS).contains 3500 = false := by decide +kernel
 
 end Strax.C03
